@@ -253,7 +253,26 @@ func c20(c *vc.Ctx) {
 	}
 	c.Reruns = 1
 
-	gen := func(emit func(arCase)) {
+	// development aid (makes the run non-exhaustive): VERIF_C20_ONLY=sweeps
+	// keeps the literal and value sweeps, =exp1 the cost<=1 texts in $(( ))
+	only := os.Getenv("VERIF_C20_ONLY")
+	if only != "" {
+		c.CapNote("VERIF_C20_ONLY=%s: part of the space only", only)
+	}
+	gen := func(emit0 func(arCase)) {
+		emit := func(t arCase) {
+			switch only {
+			case "sweeps":
+				if !t.HasV && strings.Contains(t.Expr, " ") || !t.HasV && t.Ctx != "exp" {
+					return
+				}
+			case "exp1":
+				if t.HasV || t.Ctx != "exp" || strings.Count(t.Expr, " ") > 4 {
+					return
+				}
+			}
+			emit0(t)
+		}
 		full1 := newArGen(append(append([]string{}, c20FullLeaves...), c20ParenLeaves...))
 		for k := 0; k <= 1; k++ {
 			full1.each(k, true, func(s string) {
